@@ -271,12 +271,22 @@ def check_simulation(ctx, scn, bpm, prf, parts, tam):
                 break
     # ---- compound totals ---------------------------------------------------------------------------------
     worst = 0.
-    for c in range(nch):
-        tot = q[:, lay['chems'][0] + c].copy()
-        scale = np.abs(q[:, lay['chems'][0] + c]).copy()
+    names = [str(x) for x in bpm.chem_names]
+    tracked = []
+    for p in parts:
+        if p.particle.issoluble:
+            tracked += [str(x) for x in p.composition if str(x) not in tracked]
+    for X in tracked:
+        # BY NAME: the particle's own composition.index(X) slot + the element's chem_names.index(X) pool slot
+        if X not in names:
+            ctx.violation('compound-not-tracked', 'a compound of a dissolving particle has no dissolved-pool slot', dict(base, compound=X))
+            continue
+        tot = q[:, lay['chems'][0] + names.index(X)].copy()
+        scale = np.abs(tot).copy()
         for i, p in enumerate(parts):
-            if p.particle.issoluble:
-                col = lay['particles'][i]['m'][0] + c
+            comp = [str(x) for x in p.composition]
+            if p.particle.issoluble and X in comp:
+                col = lay['particles'][i]['m'][0] + comp.index(X)
                 tot += q[:, col]
                 scale += np.abs(q[:, col])
         if not np.all(np.isfinite(tot)) or scale[0] == 0.:
@@ -285,8 +295,8 @@ def check_simulation(ctx, scn, bpm, prf, parts, tam):
         worst = max(worst, float(np.max(dev)))
         if np.max(dev) > TOL['conservation_drift']:
             k = int(np.argmax(dev))
-            ctx.violation('compound-drift', 'total mass of a compound (particles + dissolved) departs from the amount carried by the first element',
-                          dict(base, compound=bpm.chem_names[c], row=k, t=float(t[k]), total0=float(tot[0]),
+            ctx.violation('compound-drift', 'total mass of a compound (its slot in every particle + its dissolved-pool slot, matched by NAME) departs from the amount carried by the first element',
+                          dict(base, compound=X, row=k, t=float(t[k]), total0=float(tot[0]),
                                total=float(tot[k]), relative=float(dev[k])))
     # ---- inert mass --------------------------------------------------------------------------------------
     for i, p in enumerate(parts):
